@@ -13,6 +13,11 @@ From MomoCommon Require Import GenPrelude.
 From C05 Require Import Gen_GuardsArray Gen_IndexOf Gen_Grow Gen_ShiftLoops.
 From C05 Require GuardProofs IndexOfProofs GrowProofs ShiftLoopProofs.
 Local Open Scope Z_scope.
+(* generated functions are never unfolded by simpl / cbn *)
+Local Arguments ShiftInsert : simpl never.
+Local Arguments GrowCapacity : simpl never.
+Local Arguments Insert_prefix : simpl never.
+Local Arguments pvIndexOf : simpl never.
 
 Definition U64 : Z := 2 ^ 64.
 
